@@ -133,6 +133,13 @@ func (c *SConn) Output() []byte { return append([]byte(nil), c.out...) }
 //go:norace
 func (c *SConn) IsClosed() bool { return c.closed }
 
+// IsClosedSync is the free-running variant (takes the lock).
+func (c *SConn) IsClosedSync() bool {
+	c.mu.Lock()
+	defer c.mu.Unlock()
+	return c.closed
+}
+
 func (c *SConn) LocalAddr() net.Addr                { return Addr("mem:server") }
 func (c *SConn) RemoteAddr() net.Addr               { return c.Remote }
 func (c *SConn) SetDeadline(t time.Time) error      { return nil }
